@@ -3,12 +3,19 @@
 (* C11: switches are exhaustive, non-redundant, and dispatch on the run-time *)
 (* variant.                                                                 *)
 (*                                                                         *)
-(* A sum type is [kind, n, shape, wrap]: kind enum (n variants with the     *)
-(* payload kinds of `shape`) | opt (?i32: 1 = payload, 2 = nil) | nptr      *)
-(* (?^i32) | eu (str!i32: 1 = payload, 2 = error); wrap = TRUE: a distinct  *)
-(* wrapper of it.  A switch is [ty, arms, def, style]: arms is a sequence   *)
-(* of variant numbers (0 = a variant that does not belong to the type),     *)
-(* def = it ends with a default arm, style = how arms are spelled.          *)
+(* A sum type is [kind, n, shape, disc, wrap]: kind enum (n variants with   *)
+(* the payload kinds of `shape`; "ptr" = ^i32) | opt (?i32: 1 = payload,    *)
+(* 2 = nil) | nptr (?^i32) | eu (str!i32: 1 = payload, 2 = error) | euptr   *)
+(* (str!^i32).  disc: auto | custom (7, 200, 255, 0, ..) | edge (A | 254,   *)
+(* the rest counted up: the last fits) | over (A | 255, the rest counted    *)
+(* up: does not fit a one-byte tag, the declaration is invalid).            *)
+(* wrap: none | distinct (a distinct wrapper of it) | variant (the          *)
+(* scrutinee has the type of an enum VARIANT whose payload is the sum type: *)
+(* that is not a sum type).  A switch is [ty, arms, def, style, form]: arms *)
+(* is a sequence of variant numbers (0 = a variant that does not belong to  *)
+(* the type), def = it ends with a default arm, style = how arms are        *)
+(* spelled, form = stmt | value (the switch yields a value and its first    *)
+(* arm leaves the function instead).                                        *)
 (*                                                                         *)
 (* Static rule:  accepted <=> every arm names a variant of the type, no     *)
 (* variant is named twice, and all variants are named or there is a default.*)
@@ -25,29 +32,38 @@ VARIABLES c, r, out
 vars == <<c, r, out>>
 
 Shapes(n) == CASE n = 1 -> {<<"i32">>, <<"void">>}
-               [] n = 2 -> {<<"i32", "void">>, <<"agg", "u8">>}
-               [] n = 3 -> {<<"i32", "u8", "void">>, <<"void", "void", "void">>, <<"agg", "i32", "u8">>}
+               [] n = 2 -> {<<"i32", "void">>, <<"agg", "u8">>, <<"ptr", "void">>}
+               [] n = 3 -> {<<"i32", "u8", "void">>, <<"void", "void", "void">>, <<"agg", "i32", "u8">>, <<"u8", "ptr", "agg">>}
                [] n = 4 -> {<<"void", "i32", "agg", "u8">>}
                [] n = 5 -> {<<"i32", "void", "u8", "void", "agg">>}
                [] n = 6 -> {<<"void", "u8", "i32", "agg", "void", "i32">>}
+Wraps == {"none", "distinct", "variant"}
 EnumTys == {[kind |-> "enum", n |-> n, shape |-> sh, disc |-> d, wrap |-> w] :
-              n \in 1..MaxEnum, sh \in UNION {Shapes(m) : m \in 1..MaxEnum}, d \in {"auto", "custom"}, w \in BOOLEAN}
-OtherTys == {[kind |-> k, n |-> 2, shape |-> <<>>, disc |-> "auto", wrap |-> w] : k \in {"opt", "nptr", "eu"}, w \in BOOLEAN}
-Tys == {t \in EnumTys : Len(t.shape) = t.n} \cup OtherTys
+              n \in 1..MaxEnum, sh \in UNION {Shapes(m) : m \in 1..MaxEnum}, d \in {"auto", "custom", "edge", "over"}, w \in Wraps}
+OtherTys == {[kind |-> k, n |-> 2, shape |-> <<>>, disc |-> "auto", wrap |-> w] : k \in {"opt", "nptr", "eu", "euptr"}, w \in Wraps}
+Tys == {t \in EnumTys : /\ Len(t.shape) = t.n
+                        /\ (t.disc \in {"edge", "over"} => (t.n >= 2 /\ t.wrap = "none"))
+                        /\ (t.wrap = "variant" => t.disc = "auto")} \cup OtherTys
 
 ArmLists(n) == UNION {[1..k -> 0..n] : k \in 0..MaxArms}
-Switches == {[ty |-> t, arms |-> a, def |-> d, style |-> s] :
-               t \in Tys, a \in ArmLists(MaxEnum), d \in BOOLEAN, s \in {"short", "full", "mixed"}}
+Switches == {[ty |-> t, arms |-> a, def |-> d, style |-> s, form |-> f] :
+               t \in Tys, a \in ArmLists(MaxEnum), d \in BOOLEAN, s \in {"short", "full", "mixed"}, f \in {"stmt", "value"}}
 Wellformed(s) == /\ \A k \in 1..Len(s.arms) : s.arms[k] <= s.ty.n
                  /\ Len(s.arms) <= s.ty.n + 1
                  /\ (s.ty.kind # "enum" => s.style = "full")      \* only enum variants have a shorthand
+                 \* the value form and the odd declarations / scrutinees are tried with one spelling
+                 /\ (s.form = "value" => (s.style = "full" /\ Len(s.arms) >= 1 /\ s.ty.wrap = "none" /\ s.ty.disc \in {"auto", "custom"}))
+                 /\ ((s.ty.disc \in {"edge", "over"} \/ s.ty.wrap = "variant") => s.style = "full")
 
 (* ------------------------------------------------------------------ static *)
 Named(s) == {s.arms[k] : k \in 1..Len(s.arms)}
 OnlyOwn(s) == 0 \notin Named(s)
 NoDup(s) == \A i, j \in 1..Len(s.arms) : i # j => s.arms[i] # s.arms[j]
 Covers(s) == s.def \/ (1..s.ty.n) \subseteq Named(s)
-Accepted(s) == OnlyOwn(s) /\ NoDup(s) /\ Covers(s)
+(* the type itself has to make sense: discriminants fit the one-byte tag, and the scrutinee is of
+   the sum type (or a distinct wrapper of it), not of a variant type that merely contains it *)
+TypeOk(t) == t.disc # "over" /\ t.wrap # "variant"
+Accepted(s) == TypeOk(s.ty) /\ OnlyOwn(s) /\ NoDup(s) /\ Covers(s)
 
 (* ----------------------------------------------------------------- dynamic *)
 (* 0 stands for the default arm *)
